@@ -2,9 +2,17 @@
 //! the longer spelling wins (>= vs >, <= vs <, != vs !, strict wildcard vs wildcard).
 //!
 //! Every case is a loop-free assert on a string literal (no symbolic selection
-//! of the spelling).  `ComparisonOp::lex` is the entry the parser uses
-//! (ComparisonExpr::lex_with, function_expr look-ahead); the per-enum lexers
-//! generated by `lex_enum!` (OrderingOp, IntOp, BytesOp) are checked directly too.
+//! of the spelling), one obligation per spelling.  The per-enum lexers generated
+//! by `lex_enum!` (OrderingOp, IntOp, BytesOp) are checked with tails "" and
+//! " x"; `ComparisonOp::lex` - the entry the parser uses (ComparisonExpr::lex_with
+//! and the function-call look-ahead) - is checked once per spelling.
+//!
+//! `lex::expect` is replaced by a loop-free stub that implements its CONTRACT
+//! (lex/verif_kani/common.rs::expect__contract; the real `expect` is discharged
+//! against the same contract in lex/verif_kani/c07.rs).  Reason: see
+//! ast/logical_expr/verif_kani/c07.rs - the dead drop glue of the
+//! `Result<&str, LexError>` temporaries is only affordable with unwind(1), which
+//! memcmp's loop inside the real `expect` does not allow.
 use super::super::*;
 use crate::lex::verif_kani::common::is_suffix_at;
 
@@ -12,17 +20,12 @@ use crate::lex::verif_kani::common::is_suffix_at;
 macro_rules! lexes {
     ($ty:ty, $s:literal, $n:literal, $v:pat) => {{
         let s: &'static str = $s;
-        match <$ty as Lex<'_>>::lex(s) {
-            Ok((op, rest)) => {
-                assert!(matches!(op, $v), "an alias denotes the same operator as the canonical spelling");
-                assert!(is_suffix_at(s, rest, $n), "exactly the operator's characters are consumed (maximal munch)");
-                kani::cover!(true, "spelling accepted");
-            }
-            Err(e) => {
-                std::mem::forget(e);
-                assert!(false, "every documented spelling is accepted");
-            }
-        }
+        let r = <$ty as Lex<'_>>::lex(s);
+        assert!(r.is_ok(), "every documented spelling is accepted");
+        assert!(matches!(&r, Ok(($v, _))), "an alias denotes the same operator as the canonical spelling");
+        assert!(matches!(&r, Ok((_, rest)) if is_suffix_at(s, rest, $n)), "exactly the operator's characters are consumed (maximal munch)");
+        kani::cover!(r.is_ok(), "spelling accepted");
+        std::mem::forget(r);
     }};
 }
 
@@ -36,134 +39,185 @@ macro_rules! rejects {
     }};
 }
 
+macro_rules! obligation {
+    ($name:ident, $body:block) => {
+        #[kani::proof]
+        #[kani::unwind(1)]
+        #[kani::stub(crate::lex::expect, crate::lex::verif_kani::common::expect__contract)]
+        fn $name() $body
+    };
+}
+
 use ComparisonOp::Bytes as B;
 use ComparisonOp::Int as I;
 use ComparisonOp::Ordering as O;
 
-// --- ComparisonOp (parser entry): ordering operators, word and symbol spelling
+// --- OrderingOp: eq/==, ne/!=, ge/>=, le/<=, gt/>, lt/<
 
-#[kani::proof]
-#[kani::unwind(6)]
-fn comparison_op__eq_aliases() {
-    lexes!(ComparisonOp, "eq", 2, O(OrderingOp::Equal));
-    lexes!(ComparisonOp, "==", 2, O(OrderingOp::Equal));
-    lexes!(ComparisonOp, "eq x", 2, O(OrderingOp::Equal));
-    lexes!(ComparisonOp, "== x", 2, O(OrderingOp::Equal));
-    lexes!(ComparisonOp, "==x", 2, O(OrderingOp::Equal));
-    rejects!(ComparisonOp, "= x");
-}
+obligation!(ordering_op__eq, {
+    lexes!(OrderingOp, "eq", 2, OrderingOp::Equal);
+    lexes!(OrderingOp, "eq x", 2, OrderingOp::Equal);
+});
+obligation!(ordering_op__eq_eq, {
+    lexes!(OrderingOp, "==", 2, OrderingOp::Equal);
+    lexes!(OrderingOp, "== x", 2, OrderingOp::Equal);
+});
+obligation!(ordering_op__ne, {
+    lexes!(OrderingOp, "ne", 2, OrderingOp::NotEqual);
+    lexes!(OrderingOp, "ne x", 2, OrderingOp::NotEqual);
+});
+obligation!(ordering_op__bang_eq, {
+    lexes!(OrderingOp, "!=", 2, OrderingOp::NotEqual);
+    lexes!(OrderingOp, "!= x", 2, OrderingOp::NotEqual);
+});
+obligation!(ordering_op__ge, {
+    lexes!(OrderingOp, "ge", 2, OrderingOp::GreaterThanEqual);
+    lexes!(OrderingOp, "ge x", 2, OrderingOp::GreaterThanEqual);
+});
+obligation!(ordering_op__gt_eq, {
+    lexes!(OrderingOp, ">=", 2, OrderingOp::GreaterThanEqual);
+    lexes!(OrderingOp, ">= x", 2, OrderingOp::GreaterThanEqual);
+});
+obligation!(ordering_op__le, {
+    lexes!(OrderingOp, "le", 2, OrderingOp::LessThanEqual);
+    lexes!(OrderingOp, "le x", 2, OrderingOp::LessThanEqual);
+});
+obligation!(ordering_op__lt_eq, {
+    lexes!(OrderingOp, "<=", 2, OrderingOp::LessThanEqual);
+    lexes!(OrderingOp, "<= x", 2, OrderingOp::LessThanEqual);
+});
+obligation!(ordering_op__gt, {
+    lexes!(OrderingOp, "gt", 2, OrderingOp::GreaterThan);
+    lexes!(OrderingOp, "gt x", 2, OrderingOp::GreaterThan);
+});
+obligation!(ordering_op__gt_sign, {
+    lexes!(OrderingOp, ">", 1, OrderingOp::GreaterThan);
+    lexes!(OrderingOp, "> x", 1, OrderingOp::GreaterThan);
+});
+obligation!(ordering_op__lt, {
+    lexes!(OrderingOp, "lt", 2, OrderingOp::LessThan);
+    lexes!(OrderingOp, "lt x", 2, OrderingOp::LessThan);
+});
+obligation!(ordering_op__lt_sign, {
+    lexes!(OrderingOp, "<", 1, OrderingOp::LessThan);
+    lexes!(OrderingOp, "< x", 1, OrderingOp::LessThan);
+});
+// a single `=` is not an operator; white space between `>` / `<` and `=` makes two tokens
+obligation!(ordering_op__single_eq_rejected, {
+    rejects!(OrderingOp, "= x");
+});
+obligation!(ordering_op__gt_space_eq_is_gt, {
+    lexes!(OrderingOp, "> =", 1, OrderingOp::GreaterThan);
+});
+obligation!(ordering_op__lt_space_eq_is_lt, {
+    lexes!(OrderingOp, "< =", 1, OrderingOp::LessThan);
+});
 
-#[kani::proof]
-#[kani::unwind(6)]
-fn comparison_op__ne_aliases() {
-    lexes!(ComparisonOp, "ne", 2, O(OrderingOp::NotEqual));
-    lexes!(ComparisonOp, "!=", 2, O(OrderingOp::NotEqual));
-    lexes!(ComparisonOp, "ne x", 2, O(OrderingOp::NotEqual));
-    lexes!(ComparisonOp, "!= x", 2, O(OrderingOp::NotEqual));
-    lexes!(ComparisonOp, "!=x", 2, O(OrderingOp::NotEqual));
-    // `!` alone is the unary operator, never a comparison
-    rejects!(ComparisonOp, "! x");
-}
+// --- IntOp: bitwise_and / &
 
-#[kani::proof]
-#[kani::unwind(6)]
-fn comparison_op__ge_gt_aliases_and_munch() {
-    lexes!(ComparisonOp, "ge", 2, O(OrderingOp::GreaterThanEqual));
-    lexes!(ComparisonOp, ">=", 2, O(OrderingOp::GreaterThanEqual));
-    lexes!(ComparisonOp, "ge x", 2, O(OrderingOp::GreaterThanEqual));
-    lexes!(ComparisonOp, ">= x", 2, O(OrderingOp::GreaterThanEqual));
-    lexes!(ComparisonOp, ">=x", 2, O(OrderingOp::GreaterThanEqual));
-    lexes!(ComparisonOp, "gt", 2, O(OrderingOp::GreaterThan));
-    lexes!(ComparisonOp, ">", 1, O(OrderingOp::GreaterThan));
-    lexes!(ComparisonOp, "gt x", 2, O(OrderingOp::GreaterThan));
-    lexes!(ComparisonOp, "> x", 1, O(OrderingOp::GreaterThan));
-    lexes!(ComparisonOp, ">x", 1, O(OrderingOp::GreaterThan));
-    // white space between > and = makes two tokens
-    lexes!(ComparisonOp, "> =", 1, O(OrderingOp::GreaterThan));
-}
+obligation!(int_op__amp, {
+    lexes!(IntOp, "&", 1, IntOp::BitwiseAnd);
+    lexes!(IntOp, "& x", 1, IntOp::BitwiseAnd);
+    lexes!(IntOp, "&1", 1, IntOp::BitwiseAnd);
+});
+obligation!(int_op__bitwise_and, {
+    lexes!(IntOp, "bitwise_and", 11, IntOp::BitwiseAnd);
+    lexes!(IntOp, "bitwise_and x", 11, IntOp::BitwiseAnd);
+});
 
-#[kani::proof]
-#[kani::unwind(6)]
-fn comparison_op__le_lt_aliases_and_munch() {
-    lexes!(ComparisonOp, "le", 2, O(OrderingOp::LessThanEqual));
-    lexes!(ComparisonOp, "<=", 2, O(OrderingOp::LessThanEqual));
-    lexes!(ComparisonOp, "le x", 2, O(OrderingOp::LessThanEqual));
-    lexes!(ComparisonOp, "<= x", 2, O(OrderingOp::LessThanEqual));
-    lexes!(ComparisonOp, "<=x", 2, O(OrderingOp::LessThanEqual));
-    lexes!(ComparisonOp, "lt", 2, O(OrderingOp::LessThan));
-    lexes!(ComparisonOp, "<", 1, O(OrderingOp::LessThan));
-    lexes!(ComparisonOp, "lt x", 2, O(OrderingOp::LessThan));
-    lexes!(ComparisonOp, "< x", 1, O(OrderingOp::LessThan));
-    lexes!(ComparisonOp, "<x", 1, O(OrderingOp::LessThan));
-    lexes!(ComparisonOp, "< =", 1, O(OrderingOp::LessThan));
-}
+// --- BytesOp: contains, matches / ~, wildcard, strict wildcard
 
-// --- ComparisonOp: in, bitwise_and/&, contains, matches/~, wildcard, strict wildcard
+obligation!(bytes_op__contains, {
+    lexes!(BytesOp, "contains", 8, BytesOp::Contains);
+    lexes!(BytesOp, "contains x", 8, BytesOp::Contains);
+});
+obligation!(bytes_op__tilde, {
+    lexes!(BytesOp, "~", 1, BytesOp::Matches);
+    lexes!(BytesOp, "~ x", 1, BytesOp::Matches);
+    lexes!(BytesOp, "~\"", 1, BytesOp::Matches);
+});
+obligation!(bytes_op__matches, {
+    lexes!(BytesOp, "matches", 7, BytesOp::Matches);
+    lexes!(BytesOp, "matches x", 7, BytesOp::Matches);
+});
+obligation!(bytes_op__wildcard, {
+    lexes!(BytesOp, "wildcard", 8, BytesOp::Wildcard);
+    lexes!(BytesOp, "wildcard x", 8, BytesOp::Wildcard);
+});
+obligation!(bytes_op__strict_wildcard, {
+    lexes!(BytesOp, "strict wildcard", 15, BytesOp::StrictWildcard);
+    lexes!(BytesOp, "strict wildcard x", 15, BytesOp::StrictWildcard);
+});
+// `strict` on its own is not an operator
+obligation!(bytes_op__strict_alone_rejected, {
+    rejects!(BytesOp, "strict x");
+});
 
-#[kani::proof]
-#[kani::unwind(15)]
-fn comparison_op__in_and_bitwise_and_aliases() {
+// --- ComparisonOp (parser entry): every spelling once
+
+obligation!(comparison_op__in, {
     lexes!(ComparisonOp, "in", 2, ComparisonOp::In);
     lexes!(ComparisonOp, "in x", 2, ComparisonOp::In);
     lexes!(ComparisonOp, "in{", 2, ComparisonOp::In);
-    lexes!(ComparisonOp, "&", 1, I(IntOp::BitwiseAnd));
-    lexes!(ComparisonOp, "bitwise_and", 11, I(IntOp::BitwiseAnd));
+});
+obligation!(comparison_op__eq, {
+    lexes!(ComparisonOp, "eq x", 2, O(OrderingOp::Equal));
+});
+obligation!(comparison_op__eq_eq, {
+    lexes!(ComparisonOp, "== x", 2, O(OrderingOp::Equal));
+});
+obligation!(comparison_op__ne, {
+    lexes!(ComparisonOp, "ne x", 2, O(OrderingOp::NotEqual));
+});
+obligation!(comparison_op__bang_eq, {
+    lexes!(ComparisonOp, "!= x", 2, O(OrderingOp::NotEqual));
+});
+obligation!(comparison_op__ge, {
+    lexes!(ComparisonOp, "ge x", 2, O(OrderingOp::GreaterThanEqual));
+});
+obligation!(comparison_op__gt_eq, {
+    lexes!(ComparisonOp, ">= x", 2, O(OrderingOp::GreaterThanEqual));
+});
+obligation!(comparison_op__le, {
+    lexes!(ComparisonOp, "le x", 2, O(OrderingOp::LessThanEqual));
+});
+obligation!(comparison_op__lt_eq, {
+    lexes!(ComparisonOp, "<= x", 2, O(OrderingOp::LessThanEqual));
+});
+obligation!(comparison_op__gt, {
+    lexes!(ComparisonOp, "gt x", 2, O(OrderingOp::GreaterThan));
+});
+obligation!(comparison_op__gt_sign, {
+    lexes!(ComparisonOp, "> x", 1, O(OrderingOp::GreaterThan));
+});
+obligation!(comparison_op__lt, {
+    lexes!(ComparisonOp, "lt x", 2, O(OrderingOp::LessThan));
+});
+obligation!(comparison_op__lt_sign, {
+    lexes!(ComparisonOp, "< x", 1, O(OrderingOp::LessThan));
+});
+obligation!(comparison_op__amp, {
     lexes!(ComparisonOp, "& x", 1, I(IntOp::BitwiseAnd));
+});
+obligation!(comparison_op__bitwise_and, {
     lexes!(ComparisonOp, "bitwise_and x", 11, I(IntOp::BitwiseAnd));
-    lexes!(ComparisonOp, "&1", 1, I(IntOp::BitwiseAnd));
-}
-
-#[kani::proof]
-#[kani::unwind(12)]
-fn comparison_op__matches_contains_aliases() {
-    lexes!(ComparisonOp, "~", 1, B(BytesOp::Matches));
-    lexes!(ComparisonOp, "matches", 7, B(BytesOp::Matches));
-    lexes!(ComparisonOp, "~ x", 1, B(BytesOp::Matches));
-    lexes!(ComparisonOp, "matches x", 7, B(BytesOp::Matches));
-    lexes!(ComparisonOp, "~\"", 1, B(BytesOp::Matches));
-    lexes!(ComparisonOp, "contains", 8, B(BytesOp::Contains));
+});
+obligation!(comparison_op__contains, {
     lexes!(ComparisonOp, "contains x", 8, B(BytesOp::Contains));
-}
-
-#[kani::proof]
-#[kani::unwind(20)]
-fn comparison_op__wildcard_and_strict_wildcard() {
-    lexes!(ComparisonOp, "wildcard", 8, B(BytesOp::Wildcard));
+});
+obligation!(comparison_op__tilde, {
+    lexes!(ComparisonOp, "~ x", 1, B(BytesOp::Matches));
+});
+obligation!(comparison_op__matches, {
+    lexes!(ComparisonOp, "matches x", 7, B(BytesOp::Matches));
+});
+obligation!(comparison_op__wildcard, {
     lexes!(ComparisonOp, "wildcard x", 8, B(BytesOp::Wildcard));
-    lexes!(ComparisonOp, "strict wildcard", 15, B(BytesOp::StrictWildcard));
+});
+obligation!(comparison_op__strict_wildcard, {
     lexes!(ComparisonOp, "strict wildcard x", 15, B(BytesOp::StrictWildcard));
-    // `strict` on its own is not an operator
-    rejects!(ComparisonOp, "strict x");
-}
-
-// --- the per-enum lexers generated by lex_enum!, called directly
-
-#[kani::proof]
-#[kani::unwind(6)]
-fn ordering_op__every_spelling() {
-    lexes!(OrderingOp, "eq x", 2, OrderingOp::Equal);
-    lexes!(OrderingOp, "== x", 2, OrderingOp::Equal);
-    lexes!(OrderingOp, "ne x", 2, OrderingOp::NotEqual);
-    lexes!(OrderingOp, "!= x", 2, OrderingOp::NotEqual);
-    lexes!(OrderingOp, "ge x", 2, OrderingOp::GreaterThanEqual);
-    lexes!(OrderingOp, ">= x", 2, OrderingOp::GreaterThanEqual);
-    lexes!(OrderingOp, "le x", 2, OrderingOp::LessThanEqual);
-    lexes!(OrderingOp, "<= x", 2, OrderingOp::LessThanEqual);
-    lexes!(OrderingOp, "gt x", 2, OrderingOp::GreaterThan);
-    lexes!(OrderingOp, "> x", 1, OrderingOp::GreaterThan);
-    lexes!(OrderingOp, "lt x", 2, OrderingOp::LessThan);
-    lexes!(OrderingOp, "< x", 1, OrderingOp::LessThan);
-    rejects!(OrderingOp, "= x");
-}
-
-#[kani::proof]
-#[kani::unwind(20)]
-fn int_op_bytes_op__every_spelling() {
-    lexes!(IntOp, "& x", 1, IntOp::BitwiseAnd);
-    lexes!(IntOp, "bitwise_and x", 11, IntOp::BitwiseAnd);
-    lexes!(BytesOp, "contains x", 8, BytesOp::Contains);
-    lexes!(BytesOp, "~ x", 1, BytesOp::Matches);
-    lexes!(BytesOp, "matches x", 7, BytesOp::Matches);
-    lexes!(BytesOp, "wildcard x", 8, BytesOp::Wildcard);
-    lexes!(BytesOp, "strict wildcard x", 15, BytesOp::StrictWildcard);
-}
+});
+// `!` alone is the unary operator, never a comparison
+obligation!(comparison_op__bang_alone_rejected, {
+    rejects!(ComparisonOp, "! x");
+});
